@@ -80,6 +80,13 @@ def ops_for(scenario, cname):
         z2 = 3
         s["Q"] = E.PointJacobi(cf, Qp[0] * z2 * z2 % cv.p, Qp[1] * z2 ** 3 % cv.p, z2, n)
         s["H"] = E.PointJacobi(cf, Qp[0], Qp[1], 1, n, generator=True)
+        if scenario in ("S5", "S6"):
+            # a table-bearing (generator=True) point whose representation is NOT normalised (z != 1): the lazily built
+            # table and the in-place rescaling live on the same object.  S5: table already built; S6: not yet built.
+            z3 = 7
+            s["GZ"] = E.PointJacobi(cf, cv.g[0] * z3 * z3 % cv.p, cv.g[1] * z3 ** 3 % cv.p, z3, n, generator=True)
+            if scenario == "S5":
+                s["GZ"] * 3
         return s
     ops = {}
     if scenario == "S1":
@@ -108,6 +115,17 @@ def ops_for(scenario, cname):
             "G.mul_add(H)": (lambda s: aff(s["G"].mul_add(k1, s["H"], k2)), cv.add(cv.mul(k1, cv.g), cv.mul(k2, Qp))),
             "H.mul_add(G)": (lambda s: aff(s["H"].mul_add(k3, s["G"], k2)), cv.add(cv.mul(k3, Qp), cv.mul(k2, cv.g))),
             "P+Q": (lambda s: aff(s["P"] + s["Q"]), cv.add(Pp, Qp)),
+        }
+    elif scenario in ("S5", "S6"):
+        ops = {
+            "GZ*k1": (lambda s: aff(s["GZ"] * k1), cv.mul(k1, cv.g)),
+            "GZ*k2": (lambda s: aff(s["GZ"] * k2), cv.mul(k2, cv.g)),
+            "GZ.scale": (lambda s: aff(s["GZ"].scale()), cv.g),
+            "GZ.to_affine": (lambda s: aff(s["GZ"].to_affine()), cv.g),
+            "GZ.mul_add(P)": (lambda s: aff(s["GZ"].mul_add(k2, s["P"], k3)), cv.add(cv.mul(k2, cv.g), cv.mul(k3, Pp))),
+            "P.mul_add(GZ)": (lambda s: aff(s["P"].mul_add(k3, s["GZ"], k2)), cv.add(cv.mul(k3, Pp), cv.mul(k2, cv.g))),
+            "GZ.to_bytes": (lambda s: s["GZ"].to_bytes("uncompressed"), None),
+            "GZ==G": (lambda s: (s["GZ"] == s["G"], s["GZ"] == s["P"]), (True, False)),
         }
     elif scenario == "S3":
         cur = C.NIST256p
@@ -141,6 +159,8 @@ SCENARIOS = {
     "S1": ("small", [("G*k1", b) for b in ("G*k2", "G.mul_add", "G==P", "G.to_bytes")] + [("G.mul_add", "G*k2"), ("G.to_bytes", "G*k1")]),
     "S2": ("small", None),      # all ordered pairs
     "S4": ("small", None),
+    "S5": ("small", None),
+    "S6": ("small", None),
     "S3": ("p256", [("verify1", "verify2"), ("verify1", "verify-bad"), ("verify-bad", "verify1")]),
     "S1p": ("p256", [("G*k1", "G*k2"), ("G*k1", "G.mul_add")]),
 }
